@@ -190,7 +190,7 @@ PROPS["C08"] = dict(
 )
 
 PROPS["C09"] = dict(
-    modules=["contracts.C10_dispatch", "contracts.C08_claims", "contracts.C09_invariants", "contracts.C09_hashes", "contracts.C03_rerun", "contracts.C09_bounded"],
+    modules=["contracts.C10_dispatch", "contracts.C08_claims", "contracts.C09_invariants", "contracts.C09_hashes", "contracts.C03_rerun", "contracts.C19_targets", "contracts.C09_bounded"],
     decided=["Workflow.update_file_hashes applies the transition table record by record (scoped: requests of two paths; every "
              "combination of cause, old state and hash-known-ness): refusal exactly outside the table, the table's new state and "
              "the given hash written, exactly the table's follow-up on the record's own file, writes before follow-ups; "
@@ -224,8 +224,7 @@ PROPS["C09"] = dict(
 )
 
 PROPS["C04"] = dict(
-    modules=["contracts.sched_sql", "contracts.C12_limits", "contracts.C10_dispatch", "contracts.C03_inputs",
-             "contracts.C13_hash", "contracts.C04_noop", "contracts.C04_watcher", "contracts.C04_bounded"],
+    modules=["contracts.sched_sql", "contracts.C12_limits", "contracts.C10_dispatch", "contracts.C03_inputs", "contracts.C13_hash", "contracts.C04_noop", "contracts.C04_watcher", "contracts.C19_targets", "contracts.C04_bounded"],
     decided=["reset_interrupted_steps changes no step state and marks nothing pending when no step is RUNNING, CHECKING or "
              "FAILED", "Executor._run_hash_job applies a recomputed file hash only if it differs from the stored one or the "
              "cause is CONFIRMED", "FileHash.refreshed returns the stored hash when mode, mtime, size and inode are unchanged "
@@ -305,7 +304,7 @@ PROPS["C11"] = dict(
 )
 
 PROPS["C17"] = dict(
-    modules=["contracts.C18_under", "contracts.C08_claims", "contracts.C04_noop", "contracts.C17_results", "contracts.C17_bounded"],
+    modules=["contracts.C18_under", "contracts.C08_claims", "contracts.C04_noop", "contracts.C17_results", "contracts.C19_targets", "contracts.C17_bounded"],
     decided=["rescan_nglobs persists a registration only if the fresh scan of its own pattern and substitutions differs from "
              "its recorded matches (match sets as an abstract sort with extensionality)", "_raise_if_glob_match tests every "
              "attached registration's stored regular expression with fullmatch against every product path (C08)",
